@@ -503,7 +503,8 @@ struct Sched {
     shared: Arc<Shared>,
     queue: BinaryHeap<Item>,
     seq: u64,
-    last_slot_us: u64,
+    /// paced mode: the virtual milliseconds already given to a delivery
+    used_slots: std::collections::BTreeSet<u64>,
     paced: bool,
     latency_us: u64,
     rules: Vec<Rule>,
@@ -642,9 +643,17 @@ impl Sched {
 
     fn slot(&mut self, want_us: u64) -> u64 {
         if self.paced {
-            let t = want_us.max(self.last_slot_us + 1000);
-            self.last_slot_us = t;
-            t
+            // the first free millisecond at or after the wanted instant: every delivery has a millisecond
+            // of its own, and a delayed PDU is overtaken by later ones (it does not stall the link)
+            let mut ms = (want_us + 999) / 1000;
+            while !self.used_slots.insert(ms) {
+                ms += 1;
+            }
+            if self.used_slots.len() > 8192 {
+                let now_ms = self.shared.now_us() / 1000;
+                self.used_slots = self.used_slots.split_off(&now_ms);
+            }
+            ms * 1000
         } else {
             want_us
         }
@@ -1141,7 +1150,7 @@ pub fn run(mut sc: Scenario, scratch: &str) -> RunLog {
             shared: shared.clone(),
             queue: BinaryHeap::new(),
             seq: 0,
-            last_slot_us: 0,
+            used_slots: std::collections::BTreeSet::new(),
             paced: sc.paced,
             latency_us: sc.latency_ms * 1000,
             rules: std::mem::take(&mut sc.rules),
